@@ -331,7 +331,8 @@ UEXP = ['$u', '${u}', '${u-}', '${u:-d}', '${u+x}', '${u:+x}', '${#u}', '${u[@]}
         '${!u}', '$1', '$3', '"$@"', '$*', '${u:0:1}', '${u#p}', '${u%p}', '${u/p/r}', '${u^^}', '$((u+1))', '${u@Q}',
         '${#a[@]}', '${a[@]}', '"${a[@]}"', '${!a[@]}', '${a[@]:1}', '${#}', '$#', '${u:=d}', '${u:?msg}', '${u?msg}',
         '${mt:?msg}', '${mt?msg}', '${mt:-d}', '${!a}', '${a[-1]}', '${u,,}', '${@:1:1}', '${*:2}', '${#1}', '${#3}', '${3:-d}',
-        '${u@U}', '${a[@]@Q}', '${!nope*}', '${!nope@}', '${a[u]}', '${mt[0]}', '${mt[1]}', '$_nope', '"$u$mt"']
+        '${u@U}', '${a[@]@Q}', '${!nope*}', '${!nope@}', '${a[u]}', '${mt[0]}', '${mt[1]}', '$_nope', '"$u$mt"',
+        '${#u[@]}', '${#u[*]}', '${#u[0]}', '${#a[5]}', '${u[@]:1}', '${u[*]:0:1}', '${!u[@]}', '${u[@]#p}', '${u[@]/p/r}', '${u[@]^^}', '"${u[@]@Q}"']
 USTATES = [("unset", ""), ("declared", "declare u"), ("emptyarr", "declare -a u; u=()"), ("localdecl", "LOCAL")]
 UCTX = ["top", "func", "subshell", "cmdsubst", "cond", "assign", "redir", "herestr", "arith", "test"]
 
@@ -399,6 +400,8 @@ def judge_nounset(run, item):
             cluster = "nounset-redirect-target-not-fatal"
         elif r_end and not b_end and exp == "${!u}" and state[0] == "unset":
             cluster = "nounset-indirect-unset-fatal"
+        elif exp in ("${#u[@]}", "${#u[*]}", "${#u[0]}") and state[0] in ("unset", "declared", "localdecl"):
+            cluster = "nounset-count-of-unset-array-not-fatal"
         if cluster:
             kf = run.findings.match_signature(cluster)
     if ob == orf and not ck:
